@@ -7,7 +7,9 @@
 (** READING GUIDE.  Property clauses: C04_weights_*, C04_fixed_honoured*, C04_scaled_*, C04_dynamic_equal_share,
     C04_set_weight_*, C04_slots_*, C04_zero_weight_no_slot, C04_positive_weight_has_slot, C04_fill_counts*,
     C04_rr_*, C04_positive_never_starved, C04_zero_never_picked_*, C04_rnd_support, C04_route_split*,
-    C04_rr_share_end_to_end, C04_binary64_* (the instance Go runs), and the two *_refuted theorems.
+    C04_rr_share_end_to_end, C04_binary64_* (the instance Go runs), the two *_refuted theorems, and
+    C04_listener_* (connections on a real listener: one connection = one pick, whole cycles of connections,
+    the refutation of the wiring before 971ce92 and its generalisation to any stride).
     MECHANISM LEMMAS (they justify shortcuts of Check/C04.v or relate two formulations of the model;
     not coverage of a property clause): C04_probe_is_scan, C04_probe_full_diverges, C04_scan_is_model,
     C04_ring_status_is_model, C04_route_status_is_model, C04_weighQ_is_unrepaired,
@@ -15,7 +17,8 @@
 From Coq Require Import List ZArith NArith QArith Qminmax Permutation Reals.
 From Flocq Require Import Core.Raux Core.Zaux IEEE754.Binary IEEE754.Bits.
 From Fabio Require Import Lib.Outcome Model.Weigh Model.Ring Model.Pick
-  Proofs.Weigh Proofs.Ring Proofs.Pick Proofs.Split Model.WeighF Proofs.WeighF.
+  Proofs.Weigh Proofs.Ring Proofs.Pick Proofs.Split Model.WeighF Proofs.WeighF
+  Model.ListenerPick Proofs.ListenerPick.
 Import ListNotations.
 Local Open Scope nat_scope.
 
@@ -399,3 +402,115 @@ Print Assumptions C04_repaired_witnesses_ok.
 Theorem C04_binary64_domain_nonvacuous :
   sane_fixed (f64_of_bits 4599075939470750515) /\ sane_fixed (f64_of_bits 0).
 Proof. exact sane_fixed_nonvacuous. Qed.
+
+(* ---- connections on a listener (Model/ListenerPick.v: main.go's wiring of an `https+tcp+sni` listener
+   under proxy.strategy = rr: the tcpproxy matcher looks the server name up, then the SNI proxy or the http
+   proxy looks it up again to route the connection).  The property speaks of requests; a listener hands
+   them to the pickers connection by connection. ---- *)
+(* k connections = k picks, each connection exactly one, on its own route only: for EVERY table and EVERY
+   schedule of connections over the routes (and over names without route), the connections of route j are
+   served what conns_of j consecutive lookups on route j alone return, and its cursor ends where they leave it *)
+Theorem C04_listener_one_pick_per_connection : forall sched tb us tb',
+  listener_run MPFirst sched tb = Ok (us, tb') ->
+  length tb' = length tb /\ length us = length sched /\
+  forall j rt, nth_error tb j = Some rt ->
+    exists total', nth_error tb' j = Some (lr_set_total rt total')
+      /\ lookups_run (conns_of j sched) (lr_n rt) (lr_ring rt) (lr_total rt) = Ok (served j sched us, total').
+Proof. exact listener_route_isolated. Qed.
+Print Assumptions C04_listener_one_pick_per_connection.
+
+(* no connection crashes a table whose rings are not empty (C04_binary64_never_panics: they never are) *)
+Theorem C04_listener_never_crashes : forall sched tb, Forall route_ok tb ->
+  exists us tb', listener_run MPFirst sched tb = Ok (us, tb').
+Proof. exact listener_run_total. Qed.
+Print Assumptions C04_listener_never_crashes.
+
+(* "each full cycle sends every target the share given by its weight": q whole cycles of connections of
+   one route, interleaved in any way with connections of other routes, hand target t exactly q times its
+   number of slots (no uint64 wrap of the cursor inside them) *)
+Theorem C04_listener_cycles_exact : forall sched tb us tb' j rt q,
+  listener_run MPFirst sched tb = Ok (us, tb') -> nth_error tb j = Some rt ->
+  2 <= lr_n rt -> lr_ring rt <> [] -> (lr_total rt < two64)%N ->
+  (lr_total rt + N.of_nat (q * length (lr_ring rt)) <= two64)%N ->
+  conns_of j sched = q * length (lr_ring rt) ->
+  length (served j sched us) = q * length (lr_ring rt)
+  /\ forall t, occupancy t (served j sched us) = q * occupancy t (lr_ring rt).
+Proof. exact listener_cycles_exact. Qed.
+Print Assumptions C04_listener_cycles_exact.
+
+(* "a target with positive weight is never starved" *)
+Theorem C04_listener_never_starved : forall sched tb us tb' j rt i,
+  listener_run MPFirst sched tb = Ok (us, tb') -> nth_error tb j = Some rt ->
+  2 <= lr_n rt -> (lr_total rt < two64)%N ->
+  (lr_total rt + N.of_nat (length (lr_ring rt)) <= two64)%N ->
+  conns_of j sched = length (lr_ring rt) ->
+  0 < occupancy (Some i) (lr_ring rt) -> In (Some i) (served j sched us).
+Proof. exact listener_never_starved. Qed.
+Print Assumptions C04_listener_never_starved.
+
+(* "a target with zero weight is never picked" *)
+Theorem C04_listener_zero_never_picked : forall sched tb us tb' j rt i,
+  listener_run MPFirst sched tb = Ok (us, tb') -> nth_error tb j = Some rt ->
+  2 <= lr_n rt -> occupancy (Some i) (lr_ring rt) = 0 -> ~ In (Some i) (served j sched us).
+Proof. exact listener_zero_never_picked. Qed.
+Print Assumptions C04_listener_zero_never_picked.
+
+(* non-vacuity: two routes (2 and 3 targets), seven connections interleaved with a name without route *)
+Theorem C04_listener_nonvacuous :
+  listener_run MPFirst [0; 1; 0; 2; 1; 0; 1; 0]
+    [{| lr_n := 2; lr_ring := [Some 0; Some 1]; lr_total := 0 |};
+     {| lr_n := 3; lr_ring := [Some 0; Some 1; Some 2]; lr_total := 0 |}]
+  = Ok ([Some 0; Some 0; Some 1; None; Some 1; Some 0; Some 2; Some 1],
+        [{| lr_n := 2; lr_ring := [Some 0; Some 1]; lr_total := 4 |};
+         {| lr_n := 3; lr_ring := [Some 0; Some 1; Some 2]; lr_total := 3 |}]).
+Proof. exact listener_nonvacuous. Qed.
+
+(* FIXED FINDING F-C04-4 (repaired by 971ce92): with the matcher as it was (the configured picker: two
+   picks per connection) a route of two targets with equal weights sends EVERY connection to the second
+   target, however many arrive: the first has a slot (weight 1/2) and is starved *)
+Theorem C04_listener_unrepaired_starves : forall k,
+  exists tb', listener_run MPConfigured (repeat 0 k) [two_targets 0] = Ok (repeat (Some 1) k, tb')
+    /\ occupancy (Some 0) (lr_ring (two_targets 0)) = 1
+    /\ occupancy (Some 0) (served 0 (repeat 0 k) (repeat (Some 1) k)) = 0.
+Proof. exact listener_unrepaired_starves. Qed.
+Print Assumptions C04_listener_unrepaired_starves.
+
+(* the two wirings as instances of "c picks per connection, the last one routes it" (c = 1 since 971ce92,
+   c = 2 before) ... *)
+Theorem C04_listener_picks_per_connection : forall rt, 2 <= lr_n rt ->
+  route_conn MPFirst rt = bind (conn_picks 1 (lr_ring rt) (lr_total rt)) (fun p => Ok (fst p, lr_set_total rt (snd p)))
+  /\ route_conn MPConfigured rt = bind (conn_picks 2 (lr_ring rt) (lr_total rt)) (fun p => Ok (fst p, lr_set_total rt (snd p))).
+Proof. exact route_conn_picks. Qed.
+Print Assumptions C04_listener_picks_per_connection.
+
+(* ... connection number i is then routed by slot (s + c*i + c-1) mod U of the ring: stride c ... *)
+Theorem C04_listener_stride : forall r c, r <> [] -> 1 <= c -> forall k total,
+  (total < two64)%N -> (total + N.of_nat (c * k) <= two64)%N ->
+  conns_run c k r total
+  = Ok (map (fun i => nth (conn_slot c (N.to_nat total) (length r) i) r None) (seq 0 k),
+        ((total + N.of_nat (c * k)) mod two64)%N).
+Proof. exact conns_run_eq. Qed.
+Print Assumptions C04_listener_stride.
+
+(* ... one pick per connection is plain round robin (the cycle theorems above apply) ... *)
+Theorem C04_listener_one_pick_is_rr : forall r k total, conns_run 1 k r total = rr_run k r total.
+Proof. exact conns_run_one. Qed.
+Print Assumptions C04_listener_one_pick_is_rr.
+
+(* ... a stride coprime to the ring length still visits every slot once per cycle of connections (the share
+   is exact although the order differs: three equal targets survive two picks per connection) ... *)
+Theorem C04_listener_coprime_stride_exact : forall r c total, r <> [] -> 1 <= c -> Nat.gcd c (length r) = 1 ->
+  (total < two64)%N -> (total + N.of_nat (c * length r) <= two64)%N ->
+  exists us total', conns_run c (length r) r total = Ok (us, total')
+    /\ forall t, occupancy t us = occupancy t r.
+Proof. exact conns_run_coprime_exact. Qed.
+Print Assumptions C04_listener_coprime_stride_exact.
+
+(* ... and a stride that shares a factor with the number of equally weighted targets starves one of them for
+   ever: the defect is not particular to two targets *)
+Theorem C04_listener_stride_starves : forall c U total, 0 < U -> 1 <= c -> 1 < Nat.gcd c U -> (total < two64)%N ->
+  exists p, p < U /\ occupancy (Some p) (map Some (seq 0 U)) = 1 /\
+    forall k, (total + N.of_nat (c * k) <= two64)%N ->
+      exists us total', conns_run c k (map Some (seq 0 U)) total = Ok (us, total') /\ ~ In (Some p) us.
+Proof. exact listener_stride_starves. Qed.
+Print Assumptions C04_listener_stride_starves.
